@@ -4,6 +4,10 @@ import (
 	"encoding/json"
 	"errors"
 	"fmt"
+	bcrpb "github.com/google/fhir/go/proto/google/fhir/proto/r4/core/resources/bundle_and_contained_resource_go_proto"
+	orgpb "github.com/google/fhir/go/proto/google/fhir/proto/r4/core/resources/organization_go_proto"
+	ppb "github.com/google/fhir/go/proto/google/fhir/proto/r4/core/resources/patient_go_proto"
+	rppb2 "github.com/google/fhir/go/proto/google/fhir/proto/r4/core/resources/related_person_go_proto"
 	"math/big"
 	"sort"
 	"strings"
@@ -433,6 +437,9 @@ func runC02(cfg config) {
 		}
 		sort.SliceStable(namePaths, func(a, b int) bool { return len(namePaths[a]) < len(namePaths[b]) })
 		limit := 90
+		if special != nil {
+			limit = 400 // prepared resources: (almost) every path of names
+		}
 		for i, p := range namePaths {
 			if i >= limit && r.intn(len(namePaths)) > limit/2 {
 				continue
@@ -534,6 +541,47 @@ func runC02(cfg config) {
 	}
 	for _, name := range types {
 		doResource(name, 2)
+	}
+	{ // a Bundle whose entries are resources of different types with nested elements of the same short name (Patient.Contact /
+		// Organization.Contact, Patient.Link / Person.Link, Patient.Communication / RelatedPerson.Communication): one
+		// navigation step then meets different message types
+		hn := func(f string) *dtpb.HumanName {
+			return &dtpb.HumanName{Family: &dtpb.String{Value: f}, Given: []*dtpb.String{{Value: f + "-g"}}}
+		}
+		fixed := map[string][]proto.Message{
+			"Patient": {&ppb.Patient{Id: &dtpb.Id{Value: "p1"}, Contact: []*ppb.Patient_Contact{{Name: hn("PC1")}, {Name: hn("PC2"), Gender: &ppb.Patient_Contact_GenderCode{Value: 2}}},
+				Communication: []*ppb.Patient_Communication{{Preferred: &dtpb.Boolean{Value: true}, Language: &dtpb.CodeableConcept{Text: &dtpb.String{Value: "en"}}}}},
+				&ppb.Patient{Id: &dtpb.Id{Value: "p2"}, Contact: []*ppb.Patient_Contact{{Name: hn("PC3")}}}},
+			"Organization": {&orgpb.Organization{Id: &dtpb.Id{Value: "o1"}, Contact: []*orgpb.Organization_Contact{{Name: hn("OC1"), Purpose: &dtpb.CodeableConcept{Text: &dtpb.String{Value: "adm"}}}}},
+				&orgpb.Organization{Id: &dtpb.Id{Value: "o2"}, Contact: []*orgpb.Organization_Contact{{Name: hn("OC2")}, {Name: hn("OC3")}}}},
+			"RelatedPerson": {&rppb2.RelatedPerson{Id: &dtpb.Id{Value: "r1"}, Communication: []*rppb2.RelatedPerson_Communication{{Preferred: &dtpb.Boolean{Value: false}, Language: &dtpb.CodeableConcept{Text: &dtpb.String{Value: "fr"}}}}}},
+		}
+		used := map[string]int{}
+		mk := func(name string) proto.Message {
+			if l := fixed[name]; len(l) > 0 {
+				m := l[used[name]%len(l)]
+				used[name]++
+				return m
+			}
+			return g.resource(name, 2)
+		}
+		for _, kinds := range [][]string{{"Patient", "Organization", "Patient", "Organization"}, {"Patient", "RelatedPerson", "Patient"}} {
+			b := &bcrpb.Bundle{Id: &dtpb.Id{Value: "mixed"}}
+			for _, nme := range kinds {
+				cr := &bcrpb.ContainedResource{}
+				res := mk(nme)
+				rf := cr.ProtoReflect().Descriptor().Fields()
+				for i := 0; i < rf.Len(); i++ {
+					if f := rf.Get(i); f.Message() != nil && f.Message() == res.ProtoReflect().Descriptor() {
+						cr.ProtoReflect().Set(f, protoreflect.ValueOfMessage(res.ProtoReflect()))
+					}
+				}
+				b.Entry = append(b.Entry, &bcrpb.Bundle_Entry{Resource: cr})
+			}
+			special = b
+			doResource("Bundle", 0)
+			special = nil
+		}
 	}
 	{ // a List whose entries hold a typed reference to every resource type, every third with a version
 		var fnames []string
